@@ -135,7 +135,15 @@ RandomCase(seed) ==
    [prop |-> "C18", fam |-> "random", kind |-> "loadfile", op |-> "", attrs |-> <<>>, inputs |-> <<>>, nout |-> 0, allowed |-> NoCrash, cmp |-> "num", known |-> <<>>,
     feat |-> <<"random_bytes">>, x |-> [file |-> "", random |-> RandomStrings, seed |-> seed, perturb |-> "none", repo |-> ""]]
 
-Init == \/ st \in [fam : {"files"}, f : Files, done : {FALSE}]
+\* a model inside a zip archive whose entry header is honest or forged (declared sizes up to 2^64-1): loading never panics; the honest
+\* archive loads
+ZipCase(declared, method) ==
+   [prop |-> "C18", fam |-> "zip", kind |-> "loadzip", op |-> "", attrs |-> <<>>, inputs |-> <<>>, nout |-> 0, allowed |-> NoCrash, cmp |-> "num", known |-> <<>>,
+    feat |-> <<"zip_" \o declared, IF method = 8 THEN "deflate" ELSE "stored">>,
+    x |-> [declared |-> declared, method |-> method, expect |-> IF declared = "honest" THEN "loads" ELSE "nocrash"]]
+ZipDeclared == {"honest", "plus1", "minus1", "zero", "2^32", "2^48", "2^62", "max"}
+Init == \/ st \in [fam : {"zip"}, done : {FALSE}]
+        \/ st \in [fam : {"files"}, f : Files, done : {FALSE}]
         \/ st \in [fam : {"random"}, seed : Seed..(Seed + 7), done : {FALSE}]
         \/ st \in [fam : {"opsets"}, l : OpsetLists, done : {FALSE}]
         \/ st \in [fam : {"inits"}, k : InitKinds, done : {FALSE}]
@@ -151,6 +159,7 @@ Emit ==
              \* the malformed initializer first / in the middle: an error must not be forgotten when later initializers decode
              /\ P(LoadCase(<<Imp("", 13)>>, <<st.k, "good">>, FALSE, "none", <<"initializer_" \o st.k, "first_of_two">>))
              /\ P(LoadCase(<<Imp("", 13)>>, <<"good", st.k, "good", "good">>, FALSE, "none", <<"initializer_" \o st.k, "second_of_four">>))
+        [] st.fam = "zip" -> \A dcl \in ZipDeclared, method \in {0, 8} : P(ZipCase(dcl, method))
         [] st.fam = "files" -> \A pert \in {"none", "truncate", "overwrite"} : P(FileCase(st.f, pert))
         [] st.fam = "random" -> P(RandomCase(st.seed))
         [] st.fam = "unknown" ->
